@@ -281,17 +281,19 @@ PROPS["C05"] = {
                    "every-processed-child-spawned-exactly-once, start-only-after-all-children-were-spawned-and-awaited; tree-level order by the harness",
 }
 PROPS["C07"] = {
-    "functions": ["_component.start_component", "_component._init_component", "_component._start_component", "lemma:frame"],
+    "functions": ["_component.start_component", "_component._init_component", "_component._start_component",
+                  "_component._watch_component_tree_startup", "lemma:frame"],
     "trusted": COMP_TRUSTED, "assumptions": COMP_ASSUME,
     "undecided": ["'no part of the tree is still running once start_component has raised' rests on A-TG2 (task group exit waits for / cancels all "
-                  "children) - bounded harness", "timeout: the watchdog body (_watch_component_tree_startup) is diagnostic code + fail_after - bounded harness"],
+                  "children) - bounded harness", "timeout: that the watchdog's TimeoutError cancels the startup and comes out of start_component unchanged rests on A-TG2 and coalesce_exceptions - bounded harness"],
     "level": "other",
     "level_text": "Partly proved, partly bounded. Proved: the ComponentStartError created in _init_component / _start_component names the phase "
                   "that just failed ('creating' / 'preparing' / 'starting'), this component's path and its resolved class, is raised from the original "
                   "exception, and only for an Exception (cancellation and other BaseExceptions pass through unchanged so that the task group sees one "
                   "failure); after a failing prepare() no child is spawned and start() is never called; after a failing child the parent's start() is "
                   "never called (start only after the group exited normally); start_component spawns the watchdog before anything is started iff a "
-                  "timeout is given and cancels it only after success. Bounded: sibling cancellation, nothing running afterwards, timeout, teardown "
+                  "timeout is given and cancels it only after success; the watchdog sleeps exactly once for the given timeout and then always raises "
+                  "TimeoutError (never returns). Bounded: sibling cancellation, nothing running afterwards, the timeout coming out unchanged, teardown "
                   "order of what was registered (C01).",
     "level_note": "Not counted as proved: task-group level behaviour (siblings stopped, nothing runs afterwards), timeout.",
     "design_ref": "DESIGN.md section 5 (C07)",
